@@ -28,6 +28,13 @@ def orientation2d (a b c : V2 K) (eps : K) : TriOrient :=
   else if area2 < -eps then .cw
   else .degenerate
 
+/-- `Triangle::orientation(&self, epsilon)` (`dim2`): the method has its own copy of the body of `orientation2d` -/
+def triOrientation (a b c : V2 K) (eps : K) : TriOrient :=
+  let area2 := (b.sub a).perp (c.sub a)
+  if eps < area2 then .ccw
+  else if area2 < -eps then .cw
+  else .degenerate
+
 /-- `SegmentPointLocation` -/
 inductive SegLoc (K : Type) where
   | onVertex (i : Nat)
@@ -199,6 +206,25 @@ def isPointInTriangle (p v1 v2 v3 : V2 K) : InTri :=
   else .some (!(decide has_cw && decide has_ccw))
 
 
+/-! ## `Triangle::contains_point` (2-D, `shape/triangle.rs`) -/
+
+/-- `f64::signum`: `1.0` for positive numbers **and `+0.0`**, `-1.0` for negative numbers **and `-0.0`** (NaN not modelled).
+The sign of a zero is read off `1 / x` (`1 / -0.0 = -∞ < 0`, `1 / +0.0 = +∞`); in a field `1 / 0 = 0`, i.e. `signum 0 = 1`,
+the value Rust gives for the `+0.0` an exact computation would produce. -/
+def signum (x : K) : K :=
+  if x < 0 then -1 else if 0 < x then 1 else if 1 / x < 0 then -1 else 1
+
+/-- `Triangle::contains_point(&self, p)` for `dim2` -/
+def triContainsPoint (a b c p : V2 K) : Bool :=
+  let ab := b.sub a
+  let bc := c.sub b
+  let ca := a.sub c
+  let sgn1 := ab.perp (p.sub a)
+  let sgn2 := bc.perp (p.sub b)
+  let sgn3 := ca.perp (p.sub c)
+  decide (0 ≤ signum sgn1 * signum sgn2) && decide (0 ≤ signum sgn1 * signum sgn3)
+    && decide (0 ≤ signum sgn2 * signum sgn3)
+
 /-! ## `transformation/polygon_intersection.rs`: convex polygons (O'Rourke's advance rule) -/
 
 /-- `PolylinePointLocation` -/
@@ -236,77 +262,111 @@ structure CvxState (K : Type) where
   firstPointFound : Bool
   out : Array (OutPair K)
 
+/-- the edge `(a, b)` of a polygon of `len` vertices looked at when the advance index is `i`
+(`rev`: the polygon is clockwise and is walked backwards) -/
+@[inline] def cvxEdge (rev : Bool) (len i : Nat) : Nat × Nat :=
+  if rev then ((len - i) % len, len - i - 1) else ((i + len - 1) % len, i)
+
+/-- the loop condition "Quit when both adv. indices have cycled, or one has cycled twice." -/
+@[inline] def cvxCond (len1 len2 : Nat) (st : CvxState K) : Bool :=
+  (decide (st.nsteps1 < len1) || decide (st.nsteps2 < len2)) && decide (st.nsteps1 < 2 * len1)
+    && decide (st.nsteps2 < 2 * len2)
+
+/-- `advance(i1, &mut nsteps1, len1)` -/
+@[inline] def cvxAdv1 (len1 : Nat) (st : CvxState K) : CvxState K :=
+  { st with nsteps1 := st.nsteps1 + 1, i1 := (st.i1 + 1) % len1 }
+/-- `advance(i2, &mut nsteps2, len2)` -/
+@[inline] def cvxAdv2 (len2 : Nat) (st : CvxState K) : CvxState K :=
+  { st with nsteps2 := st.nsteps2 + 1, i2 := (st.i2 + 1) % len2 }
+/-- `if inflag == Poly1IsInside { out(Some(OnVertex(b1)), None) }` -/
+@[inline] def cvxEmit1 (b1 : Nat) (st : CvxState K) : CvxState K :=
+  if st.inflag = .poly1IsInside then { st with out := st.out.push (some (.onVertex b1), none) } else st
+/-- `if inflag == Poly2IsInside { out(None, Some(OnVertex(b2))) }` -/
+@[inline] def cvxEmit2 (b2 : Nat) (st : CvxState K) : CvxState K :=
+  if st.inflag = .poly2IsInside then { st with out := st.out.push (none, some (.onVertex b2)) } else st
+
+/-- the `if let Some(inter) = segments_intersection2d(..)` block of one iteration: new state and `true` if it `return`s -/
+def cvxInter (poly1 poly2 : Array (V2 K)) (eps : K) (a1 b1 a2 b2 : Nat) (st : CvxState K) : CvxState K × Bool :=
+  let dirEdge1 := (ppt poly1 b1).sub (ppt poly1 a1)
+  let dirEdge2 := (ppt poly2 b2).sub (ppt poly2 a2)
+  let a2_b2_b1 := orientation2d (ppt poly2 a2) (ppt poly2 b2) (ppt poly1 b1) eps
+  let a1_b1_b2 := orientation2d (ppt poly1 a1) (ppt poly1 b1) (ppt poly2 b2) eps
+  match segmentsIntersection2d (ppt poly1 a1) (ppt poly1 b1) (ppt poly2 a2) (ppt poly2 b2) eps with
+  | some (.point loc1 loc2) =>
+    if a2_b2_b1 ≠ .degenerate ∧ a1_b1_b2 ≠ .degenerate then
+      let st := { st with out := st.out.push (some (PolyLoc.ofSegLoc a1 b1 loc1), some (PolyLoc.ofSegLoc a2 b2 loc2)) }
+      let st := if st.inflag = .unknown ∧ st.firstPointFound = false then
+                  { st with nsteps1 := 0, nsteps2 := 0, firstPointFound := true } else st
+      let st := if a2_b2_b1 = .ccw then { st with inflag := .poly1IsInside }
+                else if a1_b1_b2 = .ccw then { st with inflag := .poly2IsInside } else st
+      (st, false)
+    else (st, false)
+  | some (.segment f1 f2 s1 s2) =>
+    if dirEdge1.dot dirEdge2 < 0 then
+      let st := { st with out := (st.out.push (some (PolyLoc.ofSegLoc a1 b1 f1), some (PolyLoc.ofSegLoc a2 b2 f2))).push
+                                    (some (PolyLoc.ofSegLoc a1 b1 s1), some (PolyLoc.ofSegLoc a2 b2 s2)) }
+      (st, true)
+    else (st, false)
+  | none => (st, false)
+
+/-- one iteration of the `while` loop: `inl` = next state, `inr (st, returned)` = the loop is left
+(`returned = true`: the function `return`ed from inside the loop) -/
+def cvxStep (poly1 poly2 : Array (V2 K)) (eps : K) (rev1 rev2 : Bool) (st : CvxState K) :
+    Sum (CvxState K) (CvxState K × Bool) :=
+  let len1 := poly1.size
+  let len2 := poly2.size
+  if !(cvxCond len1 len2 st) then .inr (st, false) else
+  let (a1, b1) := cvxEdge rev1 len1 st.i1
+  let (a2, b2) := cvxEdge rev2 len2 st.i2
+  let dirEdge1 := (ppt poly1 b1).sub (ppt poly1 a1)
+  let dirEdge2 := (ppt poly2 b2).sub (ppt poly2 a2)
+  let cross := orientation2d (⟨0, 0⟩ : V2 K) dirEdge1 dirEdge2 eps
+  let a2_b2_b1 := orientation2d (ppt poly2 a2) (ppt poly2 b2) (ppt poly1 b1) eps
+  let a1_b1_b2 := orientation2d (ppt poly1 a1) (ppt poly1 b1) (ppt poly2 b2) eps
+  -- If edge1 & edge2 intersect, update inflag.
+  let r := cvxInter poly1 poly2 eps a1 b1 a2 b2 st
+  if r.2 then .inr r else
+  let st := r.1
+  -- Special case: edge1 & edge2 parallel and separated.
+  if cross = .degenerate ∧ a2_b2_b1 = .cw ∧ a1_b1_b2 = .cw then .inr (st, true)
+  -- Special case: edge1 & edge2 collinear.
+  else if cross = .degenerate ∧ a2_b2_b1 = .degenerate ∧ a1_b1_b2 = .degenerate then
+    .inl (if st.inflag = .poly1IsInside then cvxAdv2 len2 st else cvxAdv1 len1 st)
+  -- Generic cases.
+  else if cross = .ccw then
+    if a1_b1_b2 = .ccw then .inl (cvxAdv1 len1 (cvxEmit1 b1 st))
+    else .inl (cvxAdv2 len2 (cvxEmit2 b2 st))
+  else
+    if a2_b2_b1 = .ccw then .inl (cvxAdv2 len2 (cvxEmit2 b2 st))
+    else .inl (cvxAdv1 len1 (cvxEmit1 b1 st))
+
 /-- the `while` loop; returns the state and `true` if the function `return`ed from inside the loop.
-Every iteration advances `nsteps1` or `nsteps2` (reset once to 0), so `4(len1+len2)+4` iterations of fuel suffice. -/
+Every iteration advances `nsteps1` or `nsteps2` (reset once to 0), so `4(len1+len2)+4` iterations of fuel suffice
+(theorem `C15.cvxLoop_fuel_sufficient`). -/
 def cvxLoop (poly1 poly2 : Array (V2 K)) (eps : K) (rev1 rev2 : Bool) : Nat → CvxState K → CvxState K × Bool
   | 0, st => (st, false)
   | fuel + 1, st =>
-    let len1 := poly1.size
-    let len2 := poly2.size
-    if !((decide (st.nsteps1 < len1) || decide (st.nsteps2 < len2)) && decide (st.nsteps1 < 2 * len1)
-          && decide (st.nsteps2 < 2 * len2)) then (st, false) else
-    let (a1, b1) := if rev1 then ((len1 - st.i1) % len1, len1 - st.i1 - 1) else ((st.i1 + len1 - 1) % len1, st.i1)
-    let (a2, b2) := if rev2 then ((len2 - st.i2) % len2, len2 - st.i2 - 1) else ((st.i2 + len2 - 1) % len2, st.i2)
-    let dirEdge1 := (ppt poly1 b1).sub (ppt poly1 a1)
-    let dirEdge2 := (ppt poly2 b2).sub (ppt poly2 a2)
-    let cross := orientation2d (⟨0, 0⟩ : V2 K) dirEdge1 dirEdge2 eps
-    let a2_b2_b1 := orientation2d (ppt poly2 a2) (ppt poly2 b2) (ppt poly1 b1) eps
-    let a1_b1_b2 := orientation2d (ppt poly1 a1) (ppt poly1 b1) (ppt poly2 b2) eps
-    -- If edge1 & edge2 intersect, update inflag.
-    let r : CvxState K × Bool :=
-      match segmentsIntersection2d (ppt poly1 a1) (ppt poly1 b1) (ppt poly2 a2) (ppt poly2 b2) eps with
-      | some (.point loc1 loc2) =>
-        if a2_b2_b1 ≠ .degenerate ∧ a1_b1_b2 ≠ .degenerate then
-          let st := { st with out := st.out.push (some (PolyLoc.ofSegLoc a1 b1 loc1), some (PolyLoc.ofSegLoc a2 b2 loc2)) }
-          let st := if st.inflag = .unknown ∧ st.firstPointFound = false then
-                      { st with nsteps1 := 0, nsteps2 := 0, firstPointFound := true } else st
-          let st := if a2_b2_b1 = .ccw then { st with inflag := .poly1IsInside }
-                    else if a1_b1_b2 = .ccw then { st with inflag := .poly2IsInside } else st
-          (st, false)
-        else (st, false)
-      | some (.segment f1 f2 s1 s2) =>
-        if dirEdge1.dot dirEdge2 < 0 then
-          let st := { st with out := (st.out.push (some (PolyLoc.ofSegLoc a1 b1 f1), some (PolyLoc.ofSegLoc a2 b2 f2))).push
-                                        (some (PolyLoc.ofSegLoc a1 b1 s1), some (PolyLoc.ofSegLoc a2 b2 s2)) }
-          (st, true)
-        else (st, false)
-      | none => (st, false)
-    if r.2 then r else
-    let st := r.1
-    let adv1 (st : CvxState K) : CvxState K := { st with nsteps1 := st.nsteps1 + 1, i1 := (st.i1 + 1) % len1 }
-    let adv2 (st : CvxState K) : CvxState K := { st with nsteps2 := st.nsteps2 + 1, i2 := (st.i2 + 1) % len2 }
-    let emit1 (st : CvxState K) : CvxState K :=
-      if st.inflag = .poly1IsInside then { st with out := st.out.push (some (.onVertex b1), none) } else st
-    let emit2 (st : CvxState K) : CvxState K :=
-      if st.inflag = .poly2IsInside then { st with out := st.out.push (none, some (.onVertex b2)) } else st
-    -- Special case: edge1 & edge2 parallel and separated.
-    if cross = .degenerate ∧ a2_b2_b1 = .cw ∧ a1_b1_b2 = .cw then (st, true)
-    -- Special case: edge1 & edge2 collinear.
-    else if cross = .degenerate ∧ a2_b2_b1 = .degenerate ∧ a1_b1_b2 = .degenerate then
-      cvxLoop poly1 poly2 eps rev1 rev2 fuel (if st.inflag = .poly1IsInside then adv2 st else adv1 st)
-    -- Generic cases.
-    else if cross = .ccw then
-      if a1_b1_b2 = .ccw then cvxLoop poly1 poly2 eps rev1 rev2 fuel (adv1 (emit1 st))
-      else cvxLoop poly1 poly2 eps rev1 rev2 fuel (adv2 (emit2 st))
-    else
-      if a2_b2_b1 = .ccw then cvxLoop poly1 poly2 eps rev1 rev2 fuel (adv2 (emit2 st))
-      else cvxLoop poly1 poly2 eps rev1 rev2 fuel (adv1 (emit1 st))
+    match cvxStep poly1 poly2 eps rev1 rev2 st with
+    | .inl st' => cvxLoop poly1 poly2 eps rev1 rev2 fuel st'
+    | .inr r => r
 
-/-- the O(n²) containment test: `(orient, ok)` after scanning every edge of `polyA` against every point of `polyB`
-(the `break` leaves only the inner loop) -/
+/-- inner loop of the containment test (with its `break`): the points of `polyB` against the edge `(u, v)` of `polyA`;
+state `(orient, ok)` -/
+def containInner (u v : V2 K) (eps : K) : List (V2 K) → TriOrient × Bool → TriOrient × Bool
+  | [], acc => acc
+  | p :: ps, (orient, ok) =>
+    let newOrient := orientation2d u v p eps
+    if orient = .degenerate then containInner u v eps ps (newOrient, ok)
+    else if newOrient ≠ orient ∧ newOrient ≠ .degenerate then (orient, false)
+    else containInner u v eps ps (orient, ok)
+
+/-- the O(n²) containment test: `ok` after scanning every edge of `polyA` against every point of `polyB`
+(the `break` leaves only the inner loop; `ok` is never set back to `true`) -/
 def containScan (polyA polyB : Array (V2 K)) (eps : K) : Bool :=
   let lenA := polyA.size
   let r := (List.range lenA).foldl (fun (acc : TriOrient × Bool) a =>
     let aMinus1 := (a + lenA - 1) % lenA
-    -- inner loop with `break`
-    let rec inner : List (V2 K) → TriOrient × Bool → TriOrient × Bool
-      | [], acc => acc
-      | p :: ps, (orient, ok) =>
-        let newOrient := orientation2d (ppt polyA aMinus1) (ppt polyA a) p eps
-        if orient = .degenerate then inner ps (newOrient, ok)
-        else if newOrient ≠ orient ∧ newOrient ≠ .degenerate then (orient, false)
-        else inner ps (orient, ok)
-    inner polyB.toList acc) (TriOrient.degenerate, true)
+    containInner (ppt polyA aMinus1) (ppt polyA a) eps polyB.toList acc) (TriOrient.degenerate, true)
   r.2
 
 /-- `convex_polygons_intersection_with_tolerances(poly1, poly2, tolerances, out)`: the emitted location pairs -/
